@@ -23,6 +23,7 @@ arguments).  That premise is certified in every call: the first such repeat is
 recomputed with the real kernel and compared; a difference switches the
 shortcut off and is itself reported (``poisson:reproducible:kernel``).
 """
+import signal
 import warnings
 
 import numpy as np
@@ -48,11 +49,13 @@ ASSUMPTIONS = [
     "cost restriction: accel < 2 (at or below the densest reachable pattern, ~60 dense kernel runs of 4-15 ms) only for images of <= 640 pixels; images with an axis > 64 use accel >= 3; axis lengths > 64 are 1/7 of the cases",
     "crop_corner: only samples STRICTLY outside the ellipse are violations (points exactly on it are decided by rounding in the code's float r < 1); for calib != (0,0) the ellipse is the code's radius (|x-nx/2|-cx/2)+/(nx/2-cx/2), which contains the image's inscribed ellipse (DESIGN section 7)",
     "calibration block: any of the <= 4 floor/ceil centre placements is accepted (the docstring fixes none)",
-    "sigpy.mri.samp._poisson is called exactly once per bisection step and, for an int seed, is a deterministic function of its arguments (certified per call by recomputing the first repeated-argument step); a missing/uncalled _poisson is a harness error, not a finding",
+    "sigpy.mri.samp._poisson is called exactly once per bisection step and, for an int seed, is a deterministic function of its arguments (certified per call by recomputing the first repeated-argument step); if _poisson is missing or not called (refactored tree) steps cannot be counted: non-termination is then not decidable, calls exceeding a 60 s budget are labelled inconclusive (never a finding) and all other claims are still checked",
     "a bisection step count > 1100 is taken as non-termination: interval [0, max(nx,ny) <= 128] halves per step, float64 exhausts after <= 1082 halvings",
 ]
 
 STEP_LIMIT = 1100
+UNCOUNTED_BUDGET_S = 60
+_UNCOUNTED = {"on": False, "timeouts": 0}
 DTYPES = ("complex128", "float32", "int32", "bool")
 
 
@@ -142,14 +145,27 @@ def _kwargs(case):
 def _one_call(samp, case, prior):
     """poisson(...) under the counting wrapper; returns a plain dict describing what happened."""
     kern = getattr(samp, "_poisson", None)
-    if kern is None or not callable(kern):
-        raise RuntimeError("sigpy.mri.samp._poisson not found: bisection steps cannot be counted, "
-                           "a non-terminating request would hang the harness")
-    cnt = _Counter(kern)
+    counted = kern is not None and callable(kern) and not _UNCOUNTED["on"]
+    cnt = _Counter(kern if counted else None)
     out = {"kind": None, "mask": None, "exc": None}
     _set_prior(prior)
     before = np.random.get_state()
-    samp._poisson = cnt
+    old_handler = old_left = None
+    if counted:
+        samp._poisson = cnt
+    else:
+        # The kernel is not where the pinned tree has it (renamed/inlined by a refactor): steps cannot be counted.
+        # Non-termination can then not be PROVED; a call that exceeds a generous budget is recorded as
+        # inconclusive (never a finding) and every other claim is still checked on the calls that return.
+        if _UNCOUNTED["timeouts"] >= 3:
+            out.update(kind="inconclusive", steps=0, real=0, run=0, nondet=None, state_same=True)
+            return out
+
+        def _on_alarm(signum, frame):
+            raise _NonTermination()
+        old_left = signal.alarm(0)
+        old_handler = signal.signal(signal.SIGALRM, _on_alarm)
+        signal.alarm(UNCOUNTED_BUDGET_S)
     try:
         with warnings.catch_warnings():
             warnings.simplefilter("ignore")  # divide-by-zero of an empty trial mask is handled by the bisection
@@ -157,7 +173,9 @@ def _one_call(samp, case, prior):
                 out["mask"] = samp.poisson(tuple(case["shape"]), case["accel"], **_kwargs(case))
                 out["kind"] = "mask"
             except _NonTermination:
-                out["kind"] = "hang"
+                out["kind"] = "hang" if counted else "inconclusive"
+                if not counted:
+                    _UNCOUNTED["timeouts"] += 1
             except ValueError as e:
                 out["kind"] = "ValueError"
                 out["exc"] = str(e)
@@ -165,13 +183,19 @@ def _one_call(samp, case, prior):
                 out["kind"] = "raises:" + type(e).__name__
                 out["exc"] = "%s: %s" % (type(e).__name__, e)
     finally:
-        samp._poisson = kern
+        if counted:
+            samp._poisson = kern
+        else:
+            signal.alarm(0)
+            signal.signal(signal.SIGALRM, old_handler)
+            if old_left:
+                signal.alarm(old_left)
     after = np.random.get_state()
     out.update(steps=cnt.steps, real=cnt.real, run=cnt.run, nondet=cnt.nondet,
                state_same=_state_equal(before, after))
-    if out["kind"] == "mask" and cnt.steps == 0:
-        raise RuntimeError("poisson returned a mask without calling sigpy.mri.samp._poisson: "
-                           "the step counter observes nothing")
+    if counted and out["kind"] == "mask" and cnt.steps == 0:
+        # poisson no longer goes through samp._poisson: fall back to uncounted operation for this process
+        _UNCOUNTED["on"] = True
     return out
 
 
@@ -240,7 +264,7 @@ def check_case(case):
     try:
         a = _one_call(samp, case, case["prior"])
         # a request that never returns is not repeated: same arguments, same deterministic loop
-        b = _one_call(samp, case, case["prior2"]) if a["kind"] != "hang" else None
+        b = _one_call(samp, case, case["prior2"]) if a["kind"] not in ("hang", "inconclusive") else None
     finally:
         np.random.set_state(saved)
     calls = [c for c in (a, b) if c is not None]
@@ -256,7 +280,7 @@ def check_case(case):
             r.fail("poisson:" + c["kind"], "%s raised %s (only ValueError is documented)" % (_describe(case), c["exc"]))
         if c["nondet"]:
             r.fail("poisson:reproducible:kernel", "%s: %s" % (_describe(case), c["nondet"]))
-        if c["kind"] != "hang" and not c["state_same"]:
+        if c["kind"] not in ("hang", "inconclusive") and not c["state_same"]:
             r.fail("poisson:rng-state:" + ("return" if c["kind"] == "mask" else "raise"),
                    "%s (call %d, prior numpy.random state %s) changed numpy.random.get_state()"
                    % (_describe(case), i + 1, case["prior" if i == 0 else "prior2"]))
@@ -277,8 +301,11 @@ def check_case(case):
 
     # ---- classes
     big = max(ny, nx)
-    r.label("outcome:" + {"mask": "returns", "ValueError": "raises-ValueError", "hang": "non-termination"}.get(
+    r.label("outcome:" + {"mask": "returns", "ValueError": "raises-ValueError", "hang": "non-termination",
+                          "inconclusive": "inconclusive(step counter unavailable, budget exceeded)"}.get(
         a["kind"], "raises-other"))
+    if _UNCOUNTED["on"] or not callable(getattr(samp, "_poisson", None)):
+        r.label("step-counter-unavailable")
     r.label("square" if ny == nx else "rect")
     r.label("axis<=32" if big <= 32 else "axis<=64" if big <= 64 else "axis>64")
     if not (cy or cx):
